@@ -13,8 +13,9 @@ structure St where
   wc : TWorld
   wd : TWorld           -- `D …` = C + the storage APPENDS its extension to the name it is given = the tree as it is
   dotted : Bool         -- this case uses two explicit names that differ by a dotted tail (`layout dotted`)
+  pair : Bool           -- ... or two unrelated explicit names in one directory (`layout pair`)
 
-def init : St := ⟨.init Cls.graph, .init Cls.graph, .init Cls.graph, .init Cls.graph, .init Cls.graph, false⟩
+def init : St := ⟨.init Cls.graph, .init Cls.graph, .init Cls.graph, .init Cls.graph, .init Cls.graph, false, false⟩
 
 def showFile : FileSt → String
   | .absent => "absent" | .empty => "empty" | .torn => "torn"
@@ -71,6 +72,13 @@ def showStepAt (s : Store) : Step → String
   | .replace a b => "replace:" ++ storePrefix s ++ showSlot a ++ ">" ++ storePrefix s ++ showSlot b
   | .rmdirIfEmpty => "rmdir" ++ storeDirName s
 
+/-- only what somebody could see: the removal of a file that is not there is not an event -/
+def effSteps (fs : FS) : List Step → List Step
+  | [] => []
+  | .unlink x :: r =>
+    if fs.get x == .absent then effSteps fs r else .unlink x :: effSteps ((Step.unlink x).apply fs) r
+  | st :: r => st :: effSteps (st.apply fs) r
+
 /-- the file-system calls one flat op on store `s` performs, as the harness sees them on the real code (a `rmdir`
 shows only when a directory is actually removed) -/
 def trace1 (tc : TCfg) (t : Tree) (s : Store) (cls : Cls) (op : Op) : List String :=
@@ -85,12 +93,12 @@ def trace1 (tc : TCfg) (t : Tree) (s : Store) (cls : Cls) (op : Op) : List Strin
   | .save c v =>
     let st := saveSteps cfg.saveMode c cls v
     let fs1 := runSteps fs st
-    st.map (showStepAt s) ++ (if fs1.noFiles && !busy then ["rmdir" ++ storeDirName s] else []) ++ climbed
-  | .crash c v k => ((saveSteps cfg.saveMode c cls v).take k).map (showStepAt s)
+    (effSteps fs st).map (showStepAt s) ++ (if fs1.noFiles && !busy then ["rmdir" ++ storeDirName s] else []) ++ climbed
+  | .crash c v k => (effSteps fs ((saveSteps cfg.saveMode c cls v).take k)).map (showStepAt s)
   | .delete =>
     let st := if hasSaved fs || (cfg.sweep && hasLeftover fs) then deleteSteps cfg.saveMode else []
     let fs1 := runSteps fs st
-    st.map (showStepAt s) ++ (if fs1.dir && fs1.noFiles && !busy then ["rmdir" ++ storeDirName s] else []) ++ climbed
+    (effSteps fs st).map (showStepAt s) ++ (if fs1.dir && fs1.noFiles && !busy then ["rmdir" ++ storeDirName s] else []) ++ climbed
   | _ => []
 
 def ttrace (tc : TCfg) (w : TWorld) : TOp → List String
@@ -139,10 +147,12 @@ def obsN (tag : String) (tc : TCfg) (m : NameMode) (w : TWorld) (name : Name) (o
   (w', s!"{tag} {showRes r} | {showTree w'.tree} | has={if hasSaved pv then 1 else 0} hasnf={if hasSavedF false pv then 1 else 0} nf={showLoadNF w'.node.cls pv}{kids} | node={w'.node.ver} | steps={",".intercalate (trace1 tc w.tree st w.node.cls op)}")
 
 def bothN (s : St) (name : Name) (op : Op) : St × List String :=
-  let (wi, li) := obsN "I" ⟨Cfg.pinned, false⟩ .replaceTail s.wi name op
-  let (wa, la) := obsN "A" ⟨Cfg.unswept, false⟩ .replaceTail s.wa name op
-  let (ws, ls) := obsN "S" TCfg.unclimbed .replaceTail s.ws name op
-  let (wc, lc) := obsN "C" TCfg.current .replaceTail s.wc name op
+  -- names without a dot were never collapsed: every variant keeps them apart
+  let old : NameMode := if s.pair then .append else .replaceTail
+  let (wi, li) := obsN "I" ⟨Cfg.pinned, false⟩ old s.wi name op
+  let (wa, la) := obsN "A" ⟨Cfg.unswept, false⟩ old s.wa name op
+  let (ws, ls) := obsN "S" TCfg.unclimbed old s.ws name op
+  let (wc, lc) := obsN "C" TCfg.current old s.wc name op
   let (wd, ld) := obsN "D" TCfg.current .append s.wd name op
   ({ s with wi := wi, wa := wa, ws := ws, wc := wc, wd := wd }, [li, la, ls, lc, ld])
 
@@ -184,6 +194,7 @@ def stepDotted (s : St) (ws : List String) : St × List String :=
 
 def step (s : St) (ws : List String) : St × List String :=
   if ws = ["layout", "dotted"] then ({ s with dotted := true }, []) else
+  if ws = ["layout", "pair"] then ({ s with dotted := true, pair := true }, []) else
   if s.dotted then stepDotted s ws else
   match ws with
   | "at" :: st :: rest =>
